@@ -122,6 +122,20 @@ impl<E: FieldElement, H: ElementHasher<BaseField = E::BaseField>> VerifierChanne
             .parse(main_trace_width, aux_trace_width, constraint_frame_width)
             .map_err(|err| VerifierError::ProofDeserializationError(err.to_string()))?;
 
+        // the Lagrange kernel frame must be present exactly when the computation has a Lagrange
+        // kernel column, and it must hold one evaluation per Lagrange kernel constraint
+        let expected_lagrange_frame_len = if air.context().has_lagrange_kernel_aux_column() {
+            Some(air.trace_length().ilog2() as usize + 1)
+        } else {
+            None
+        };
+        let lagrange_frame_len = ood_trace_frame.lagrange_kernel_frame().map(|frame| frame.num_rows());
+        if lagrange_frame_len != expected_lagrange_frame_len {
+            return Err(VerifierError::ProofDeserializationError(format!(
+                "expected a Lagrange kernel frame of {expected_lagrange_frame_len:?} evaluations, but was {lagrange_frame_len:?}",
+            )));
+        }
+
         Ok(VerifierChannel {
             // trace queries
             trace_roots,
